@@ -653,8 +653,14 @@ func cmdCheck(repo, root string, args []string) int {
 		level = "other"
 		cov["explanation"] = fmt.Sprintf("%d of %d obligations were not discharged (%d of them belong to listed known findings); the property is not proved on this tree, see the VIOLATION lines", len(fails), nObl, nKnownObl)
 	} else if nKnownObl > 0 {
-		cov["explanation"] = fmt.Sprintf("proved except for %d obligation(s) that fail because of %d genuine defect(s) recorded in known_findings.json (each printed as KNOWN-FINDING with its witness replayed on the real code); outside their carve-outs every obligation is discharged", nKnownObl, len(knownLines))
+		cov["explanation"] = fmt.Sprintf("proved except for %d obligation(s) excluded because genuine defects recorded in known_findings.json make them fail: %d finding(s) of this property (each printed as KNOWN-FINDING with its witness replayed on the real code) and %d obligation(s) of findings recorded against other properties that entered through the dependency closure; outside the carve-outs every obligation is discharged", nKnownObl, len(knownLines), len(otherSkipped))
 	}
+	if prop == "C09" && discharged == nObl-nKnownObl {
+		// the property is about Build, whose body is outside the subset: only its building blocks are proved
+		level = "other"
+		cov["explanation"] = fmt.Sprintf("PARTIAL: the sequential building blocks of the batch encoder (priority tables, the two comparators, their lexicographic composition in Less, the per-candidate Run, Result) are proved for all inputs (%d obligations discharged); the composition in BatchDataCodingEncoder.Build (candidate map iteration, goroutines, lo.Filter, sort.Sort) is NOT proved - it is covered only by the bounded stand-in listed under bounded_stand_ins, which is a bounded check and not counted in obligations/discharged", discharged)
+	}
+
 	ev := &evidence{PropertyID: prop, Tier: tier, Seed: seed, Level: level, Coverage: cov, Assumptions: asm, WallS: time.Since(t0).Seconds(), Violations: violations}
 	if err := writeJSON(evPath, ev); err != nil {
 		fmt.Fprintln(os.Stderr, err)
